@@ -4,6 +4,7 @@ import (
 	"errors"
 	"fmt"
 	"net"
+	"sync"
 	"time"
 
 	"github.com/lightningnetwork/lnd/keychain"
@@ -29,6 +30,7 @@ type Listener struct {
 	handshakeSema chan struct{}
 	conns         chan maybeConn
 	quit          chan struct{}
+	closeOnce     sync.Once
 }
 
 // A compile-time assertion to ensure that Conn meets the net.Listener interface.
@@ -211,11 +213,11 @@ func (l *Listener) Accept() (net.Conn, error) {
 //
 // Part of the net.Listener interface.
 func (l *Listener) Close() error {
-	select {
-	case <-l.quit:
-	default:
+	// Close may be called more than once, also from several goroutines at
+	// the same time: testing the channel and closing it are two steps.
+	l.closeOnce.Do(func() {
 		close(l.quit)
-	}
+	})
 
 	return l.tcp.Close()
 }
